@@ -142,6 +142,46 @@ def heap_typing(ctx, heap):
     return out
 
 
+TDIV = z3.Function("tdiv", I, I, I)
+TDIV2 = z3.Function("tdiv2", I, I, I, I, I)      # tdiv2(c, f1, f2, d) = trunc(c*f1*f2 / d): keeps a product of two symbolic factors out of the arithmetic solver
+
+
+def _tdiv(num, den):
+    num = z3.simplify(num)
+    if z3.is_app_of(num, z3.Z3_OP_MUL):
+        coef, fac = 1, []
+        stack = list(num.children())
+        while stack:
+            c = stack.pop()
+            if z3.is_int_value(c):
+                coef *= c.as_long()
+            elif z3.is_app_of(c, z3.Z3_OP_MUL):
+                stack.extend(c.children())
+            else:
+                fac.append(c)
+        if len(fac) == 2:
+            fac.sort(key=lambda t: str(t))
+            return TDIV2(z3.IntVal(coef), fac[0], fac[1], den)
+    return TDIV(num, den)
+
+
+def _as_int(t):
+    """Real-sorted term that is the embedding of an Int term -> that Int term"""
+    t = z3.simplify(t)
+    if z3.is_app_of(t, z3.Z3_OP_TO_REAL):
+        return t.arg(0)
+    if z3.is_rational_value(t) and t.denominator_as_long() == 1:
+        return z3.IntVal(t.numerator_as_long())
+    if z3.is_app_of(t, z3.Z3_OP_MUL) or z3.is_app_of(t, z3.Z3_OP_ADD):
+        parts = [_as_int(c) for c in t.children()]
+        if all(p is not None for p in parts):
+            r = parts[0]
+            for p_ in parts[1:]:
+                r = r * p_ if z3.is_app_of(t, z3.Z3_OP_MUL) else r + p_
+            return r
+    return None
+
+
 _mn_cache = {}
 
 
@@ -538,7 +578,7 @@ class Exec:
             if n == "math" and e.attr == "inf":
                 return Num(z3.RealVal(0), real=True, inf=TRUE)
             if n == "math" and e.attr == "nan":
-                return Opaque("nan")
+                return Num(z3.Int("NaN!const"))      # an unconstrained constant: nothing may be derived from its value
             if e.attr == "LOGGER":
                 return Opaque("LOGGER")
         b = self.ev(e.value, st)
@@ -565,6 +605,9 @@ class Exec:
             cls, node = self.ctx.find_method(b.cls, e.attr)
             if node is not None and any(isinstance(d, ast.Name) and d.id == "property" for d in node.decorator_list):
                 raise VCError(f"property {b.cls}.{e.attr} must be hoisted (internal)")
+            for c_ in self.ctx.mro(b.cls):
+                if f"{c_}.{e.attr}" in self.ctx.tables:
+                    return self.ctx.tables[f"{c_}.{e.attr}"]      # class-level constant read through an instance
             return self.read_field(st, b, e.attr)
         if isinstance(b, Opaque) and b.what == "self_tok":
             raise VCError("tokeniser attribute")
@@ -664,6 +707,15 @@ class Exec:
     def ev_List(self, e, st):
         return ConstList([self.ev(x, st) for x in e.elts])
 
+    def ev_Dict(self, e, st):
+        ent = {}
+        for k, v in zip(e.keys, e.values):
+            kv = self.ev(k, st)
+            if not isinstance(kv, StrV) or kv.const() is None:
+                raise VCError("dict literal with non-constant key")
+            ent[kv.const()] = (TRUE, self.ev(v, st))
+        return DictObj(ent)
+
     def ev_Lambda(self, e, st):
         return Closure(e, st.env)
 
@@ -686,6 +738,8 @@ class Exec:
                     atoms.append(("lit", format(xs.as_long(), spec)))
                 else:
                     w = int(spec.lstrip("0") or 0) if spec else 0
+                    if not x.real:
+                        self.safety("formatted number is non-negative (STR)", st, x.v >= 0)
                     atoms.append(("fmt", x, w))
             else:
                 raise VCError(f"f-string of {x!r}")
@@ -757,6 +811,16 @@ class Exec:
             for k, v in reversed(c.pairs[:-1]):
                 r = self.ite(self.eq(i, k, st), v, r)
             return r
+        if isinstance(c, DictObj):
+            key = i.const() if isinstance(i, StrV) else None
+            if key is None:
+                raise VCError("dict subscript with non-constant key")
+            ent = c.get(key)
+            if ent is None:
+                self.safety(f"key {key!r} present (KeyError)", st, FALSE)
+                raise VCError(f"key {key!r} never stored")
+            self.safety(f"key {key!r} present (KeyError)", st, ent[0])
+            return ent[1]
         if isinstance(c, ListV):
             self.need(c, st, "list")
             self.need(i, st, "index")
@@ -840,6 +904,8 @@ class Exec:
             n = f.id
             if n in self.ctx.specfuns and n not in st.env:
                 return self.ctx.specfuns[n](self, st, e)
+            if n == "dict" and not e.args and not e.keywords:
+                return DictObj({})
             if n == "__newlist__":
                 return self.new_list(st, "?", 0)
             if n == "abs":
@@ -876,6 +942,11 @@ class Exec:
                     return Num(z3.If(v.v, 1, 0))
                 if not v.real:
                     return Num(v.v)
+                # idiom int(x / y) over integers: kept as the uninterpreted truncating quotient tdiv(x, y) (the same idiom on both
+                # sides of a comparison then agrees by congruence; its defining lemma is stated separately where it is needed)
+                q = self.int_quotient(v.v)
+                if q is not None:
+                    return Num(q)
                 t = z3.ToInt(v.v)   # floor
                 return Num(z3.If(z3.Or(v.v >= 0, z3.ToReal(t) == v.v), t, t + 1))
             if n == "float":
@@ -951,6 +1022,16 @@ class Exec:
                     st.pc.append(z3.Implies(z3.And(self.guards) if self.guards else TRUE, z3.And(0 <= r, r < n, self.eq(self.lget(st, c, r), x, st),
                                         z3.ForAll([j], z3.Implies(z3.And(0 <= j, j < r), z3.Not(self.eq(self.lget(st, c, j), x, st)))))))
                     return Num(r)
+            if f.attr == "get" and isinstance(self.peek(f.value, st), DictObj):
+                c = self.ev(f.value, st)
+                key = self.ev(e.args[0], st)
+                d = self.ev(e.args[1], st) if len(e.args) > 1 else NONE
+                if not (isinstance(key, StrV) and key.const() is not None):
+                    raise VCError("dict.get with non-constant key")
+                ent = c.get(key.const())
+                if ent is None:
+                    return d
+                return self.ite(ent[0], ent[1], d)
             if f.attr in ("get",) and isinstance(self.peek(f.value, st), ConstDict):
                 c = self.ev(f.value, st)
                 x = self.ev(e.args[0], st)
@@ -962,6 +1043,28 @@ class Exec:
             if f.attr == "item" or f.attr == "info" or f.attr == "debug" or f.attr == "warning":
                 return NONE
         raise VCError(f"call {ast.unparse(e)[:60]} outside subset at line {e.lineno}")
+
+    def int_quotient(self, r):
+        r = z3.simplify(r)
+        if z3.is_rational_value(r):
+            fr = r.as_fraction()
+            return z3.IntVal(int(fr))          # truncation towards zero
+        whole = _as_int(r)
+        if whole is not None:
+            return whole                       # the real is the embedding of an integer term
+        if z3.is_app_of(r, z3.Z3_OP_DIV) or z3.is_div(r):
+            a, b = r.children()
+            ai, bi = _as_int(a), _as_int(b)
+            if ai is not None and bi is not None:
+                return _tdiv(ai, bi)
+        if z3.is_app_of(r, z3.Z3_OP_MUL):
+            # c * x with c = 1/k  (z3 rewrites x / k into (1/k) * x)
+            ch = r.children()
+            if len(ch) == 2 and z3.is_rational_value(ch[0]) and ch[0].numerator_as_long() == 1:
+                xi = _as_int(ch[1])
+                if xi is not None:
+                    return TDIV(xi, z3.IntVal(ch[0].denominator_as_long()))
+        return None
 
     def peek(self, e, st):
         try:
@@ -1105,7 +1208,7 @@ class Exec:
         class T(ast.NodeTransformer):
             def visit_ListComp(self, n):
                 self.generic_visit(n)
-                has_call = any(ex.is_user_call(c) for c in ast.walk(n.elt)) or any(ex.is_user_call(c) for g in n.generators for c in ast.walk(g.iter) if c is not g.iter and False)
+                has_call = any(ex.is_user_call(c) for c in ast.walk(n.elt)) or any(ex.is_user_call(c) for g in n.generators for c in ast.walk(g.iter))
                 if not has_call or len(n.generators) != 1 or n.generators[0].ifs and False:
                     return n
                 g = n.generators[0]
@@ -1295,7 +1398,7 @@ class Exec:
             elif cl.items and all(isinstance(x, Ref) for x in cl.items):
                 elem = "ref:" + cl.items[0].cls
             elif not cl.items:
-                elem = "int"
+                elem = "?"
             else:
                 return cl
         arr = fresh("lit", z3.ArraySort(I, I))
@@ -1307,6 +1410,12 @@ class Exec:
         def cont(e, s):
             s = s.cp()
             c = self.ev(e, s)
+            if isinstance(c, DictObj):
+                key = self.ev(tgt.slice, s)
+                if not (isinstance(key, StrV) and key.const() is not None and isinstance(tgt.value, ast.Name)):
+                    raise VCError("dict store form")
+                s.env[tgt.value.id] = c.with_(key.const(), v)
+                return [("n", s, None)]
             if not isinstance(c, ListV):
                 raise VCError(f"subscript store into {c!r}")
             if isinstance(tgt.slice, ast.Slice):
@@ -1396,8 +1505,26 @@ class Exec:
         return outs
 
     # -- loops ---------------------------------------------------------------------
+    def name_loops(self, fn):
+        """loop names are syntactic: pre-order position among the for/while loops (and desugared comprehensions) of the function"""
+        locs = []
+        inner = [n for n in ast.walk(fn) if isinstance(n, ast.FunctionDef) and n is not fn]
+        skip = {id(x) for f in inner for x in ast.walk(f) if x is not f}
+        for n in ast.walk(fn):
+            if id(n) in skip:
+                continue
+            if isinstance(n, (ast.For, ast.While)):
+                locs.append((n.lineno, n.col_offset))
+            elif isinstance(n, ast.ListComp) and len(n.generators) == 1 and (any(self.is_user_call(c) for c in ast.walk(n.elt)) or any(self.is_user_call(c) for c in ast.walk(n.generators[0].iter))):
+                locs.append((n.lineno, n.col_offset))
+        return {loc: f"L{k}" for k, loc in enumerate(sorted(set(locs)))}
+
     def loop_spec(self, x):
-        name = getattr(self, "loop_prefix", "") + f"L{self.loop_counter}"
+        names = getattr(self, "loop_names", None)
+        if names is not None and (x.lineno, x.col_offset) in names:
+            name = getattr(self, "loop_prefix", "") + names[(x.lineno, x.col_offset)]
+        else:
+            name = getattr(self, "loop_prefix", "") + f"L{self.loop_counter}"
         self.loop_counter += 1
         spec = (self.contract.loops if self.contract else {}).get(name)
         head = ast.unparse(x.target) + " in " + ast.unparse(x.iter) if isinstance(x, ast.For) else ast.unparse(x.test)
@@ -1565,21 +1692,23 @@ class Exec:
             dm = body.cp()
             dm.meta["entry_env"], dm.meta["entry_heap"] = entry_env, entry_heap
             dec0 = self.spec_ev(spec["dec"], dm).v
-        if self.feasible(body):
+        bodies = self.fork_tokens(x, body) if isfor else [body]
+        for body in bodies:
+          if self.feasible(body):
             for k, t, v in self.block(x.body, body):
-                if k in ("n", "c"):
-                    terms, tt = inv_terms(t, (i + 1) if isfor else None)
-                    for nm, g, src in terms:
-                        self.oblige(f"inv-keep[{name}].{nm}", tt, g, "inv-keep", text=src)
-                    if dec0 is not None:
-                        dm = t.cp()
-                        dm.meta["entry_env"], dm.meta["entry_heap"] = entry_env, entry_heap
-                        d1 = self.spec_ev(spec["dec"], dm).v
-                        self.oblige(f"dec[{name}]", t, z3.And(d1 < dec0, dec0 >= 0), "dec", text=spec["dec"])
-                elif k == "b":
-                    outs.append(("n", t, None))
-                else:
-                    outs.append((k, t, v))
+                  if k in ("n", "c"):
+                      terms, tt = inv_terms(t, (i + 1) if isfor else None)
+                      for nm, g, src in terms:
+                          self.oblige(f"inv-keep[{name}].{nm}", tt, g, "inv-keep", text=src)
+                      if dec0 is not None:
+                          dm = t.cp()
+                          dm.meta["entry_env"], dm.meta["entry_heap"] = entry_env, entry_heap
+                          d1 = self.spec_ev(spec["dec"], dm).v
+                          self.oblige(f"dec[{name}]", t, z3.And(d1 < dec0, dec0 >= 0), "dec", text=spec["dec"])
+                  elif k == "b":
+                      outs.append(("n", t, None))
+                  else:
+                      outs.append((k, t, v))
         # ---- exit
         ex = hi_.cp()
         if isfor:
@@ -1593,6 +1722,27 @@ class Exec:
             else:
                 outs.append(("n", ex, None))
         return outs
+
+    def fork_tokens(self, x, body):
+        """a loop variable bound to an element of a token list: one path per canonical token shape (tokens.shapes)"""
+        from .tokens import shapes
+        names = [n.id for n in ast.walk(x.target) if isinstance(n, ast.Name)]
+        toks = [n for n in names if type(body.env.get(n)).__name__ == "TokV"]
+        if not toks:
+            return [body]
+        out = [body]
+        for n in toks:
+            nxt = []
+            for b in out:
+                t = b.env[n].term
+                for nm, guard, build in shapes():
+                    c = b.cp()
+                    c.pc.append(guard(t))
+                    c.env[n] = build(t) if build is not None else StrV([("lit", "\x00not-a-token")])
+                    c.env["@tok_" + n] = b.env[n]
+                    nxt.append(c)
+            out = nxt
+        return out
 
     def frame_invariants(self, fields, lists):
         """automatic frame conjuncts from the function's `modifies` clause"""
